@@ -55,3 +55,31 @@ Section Geo.
     | x :: r => if Nat.ltb i (n - 1) && (gdiv A x lastv <=. t) then first_above r lastv t (S i) n else i
     end.
 End Geo.
+
+(* ConstrainedStateSpace::geodesicInterpolate(geodesic, t): the geodesic vertex closest (in arc-length fraction) to t.
+   [gsub], [gabs], [g1]: subtraction, absolute value and 1 of the arithmetic.  None = an access outside the vector. *)
+Section GeoInterp.
+  Variable A : garith.
+  Variable St : Type.
+  Variable dist : St -> St -> G A.
+  Variable gsub : G A -> G A -> G A.
+  Variable gabs : G A -> G A.
+  Variable g1 : G A.
+  Definition geodesic_interpolate (g : list St) (t : G A) : option St :=
+    match g with
+    | [] => None
+    | s0 :: rest =>
+      let n := length g in
+      let d := g0 A :: partial_sums A St dist s0 (g0 A) rest in              (* d[0] = 0, d[i] = d[i-1] + distance *)
+      let lastv := last d (g0 A) in
+      if gle A lastv (geps A) then Some s0
+      else
+        let i := first_above A d lastv t 0 n in                              (* while (i < n-1 && d[i]/last <= t) i++ *)
+        let t1 := gsub (gdiv A (nth i d (g0 A)) lastv) t in
+        let t2 := if Nat.leb i (n - 2) then gsub (gdiv A (nth (S i) d (g0 A)) lastv) t else g1 in
+        if glt A t1 t2 || glt A (gabs (gsub t1 t2)) (geps A) then nth_error g i else nth_error g (S i)
+    end.
+  (* ConstrainedStateSpace::interpolate: the geodesic vertex when the traversal succeeds, else `from' *)
+  Definition constrained_interpolate (geo : bool * list St) (from : St) (t : G A) : option St :=
+    if fst geo then geodesic_interpolate (snd geo) t else Some from.
+End GeoInterp.
